@@ -131,6 +131,9 @@ REQUIRED_IDIOM = {
                           [("A", "B", [], {"out": "o"}), ("A", "C", ["scale"], {"out": "o"})]),
     "abc_required": T(["A", {"name": "B", "required_idiom": True}, "C"], [("A", "B"), ("B", "C")]),
 }
+# one output, two consumers: one pulls at connect, the other neither pulls at connect nor reads undelayed (its first
+# request can lie before its own start)
+FAN_OUT_LATE_FIRST_PULL = T(["A", "B", NP("C")], [("A", "B", [], {"out": "o"}), ("A", "C", ["dfix"], {"out": "o"})])
 DOUBLE_LINK = T(["A", "B"], [("A", "B"), ("A", "B", ["scale"])])
 
 # delay adapter on the SOURCE side of a push-based time adapter (known finding, DESIGN.md section 9)
